@@ -62,9 +62,11 @@ Flipped(S, e) == CASE e.k = "exec" -> FlipSyms(IF S.ord[e.id].st = "A" /\ S.ord[
                                                  THEN PriceEff(S, S.ord[e.id].sym, S.ord[e.id].p) ELSE S, <<e.id>>)
                    [] e.k = "flush" -> FlipSyms(S, S.pending)
                    [] OTHER -> {}
-DiffFlip(S, e, X, P, dup) == LET fs == Flipped(S, e) IN
-  IF fs = {} THEN Diff(X, P, dup)
-  ELSE Diff([X EXCEPT !.pos = [s \in Syms |-> IF s \in fs /\ (P.pos[s] < 0 \/ e.k = "flush") THEN P.pos[s] ELSE X.pos[s]]], P, dup)
+\* a deviation is NAMED after a quirk only when the whole logged state (order statuses and account) is the quirk's effect
+FullDiff(X, P) == IF LifeDiff(X, P) # "ok" THEN LifeDiff(X, P) ELSE AcctDiff(X, P)
+DiffFlip(S, e, X, P) == LET fs == Flipped(S, e) IN
+  IF fs = {} THEN FullDiff(X, P)
+  ELSE FullDiff([X EXCEPT !.pos = [s \in Syms |-> IF s \in fs /\ (P.pos[s] < 0 \/ e.k = "flush") THEN P.pos[s] ELSE X.pos[s]]], P)
 
 AcctChecks(P) ==
   IF ~NonNegativeOf(P) THEN "negative-balance"
@@ -112,9 +114,9 @@ Both0(S, e, P, pk) ==
       d == Diff(EffQ(S, e, FALSE, FALSE), P, dup)
       pc == IF pk THEN PostChecks(e.post, P) ELSE "ok"
   IN IF d = "ok" THEN (IF pc = "ok" THEN R("ok", "") ELSE R(tag \o ":" \o pc, ""))
-     ELSE IF Diff(EffQ(S, e, TRUE, FALSE), P, dup) = "ok" THEN R("ok", e.k \o ":sell-sum-released-twice")
-     ELSE IF DiffFlip(S, e, EffQ(S, e, FALSE, TRUE), P, dup) = "ok" THEN R("ok", e.k \o ":position-flips-short")
-     ELSE IF DiffFlip(S, e, EffQ(S, e, TRUE, TRUE), P, dup) = "ok" THEN R("ok", e.k \o ":sell-sum-released-twice+position-flips-short")
+     ELSE IF FullDiff(EffQ(S, e, TRUE, FALSE), P) = "ok" THEN R("ok", e.k \o ":sell-sum-released-twice")
+     ELSE IF DiffFlip(S, e, EffQ(S, e, FALSE, TRUE), P) = "ok" THEN R("ok", e.k \o ":position-flips-short")
+     ELSE IF DiffFlip(S, e, EffQ(S, e, TRUE, TRUE), P) = "ok" THEN R("ok", e.k \o ":sell-sum-released-twice+position-flips-short")
      ELSE R(tag \o ":" \o d, "")
 
 IsFlipClass(k) == k \in {x \o y : x \in {"exec", "flush"}, y \in {":position-flips-short", ":sell-sum-released-twice+position-flips-short"}}
